@@ -34,3 +34,43 @@ SPECS["C17"] = dict(
     trusted_base=["Rust std::io::Read contract (a reader never reports more bytes than the buffer holds)"],
     assumptions=["64-bit usize; allocation failure (OOM abort) not modelled"],
 )
+
+SPECS["C08"] = dict(
+    title="StreamChunker tiles the input stream exactly, sentinels never hidden in data",
+    lean_modules=["Woodpile.Props.C08"],
+    theorems=[
+        "Woodpile.Props.C08.clamp_in_code",
+        "Woodpile.Props.C08.pumps_succeed_and_tile",
+        "Woodpile.Props.C08.tiles_of_run",
+        "Woodpile.Props.C08.eof_only_at_end",
+        "Woodpile.Props.C08.tiling",
+        "Woodpile.Props.C08.eof_reached",
+        "Woodpile.Props.C08.offsets_are_ends",
+        "Woodpile.Props.C08.sentinel_is_occurrence",
+        "Woodpile.Props.C08.data_nonempty_stuff_free",
+        "Woodpile.Props.C08.no_straddle",
+        "Woodpile.Props.C08.chunks_regroup_to_segments",
+        "Woodpile.Props.C08.attempts_irrelevant",
+        "Woodpile.Props.C08.arena_irrelevant",
+    ],
+    families=[dict(name="chunker", quick=3000, thorough=300000)],
+    technique="Lean 4 proof (invariant over pump calls on top of the read_n model; all streams, well-behaved read schedules, "
+              "block sizes and arena states) + model/implementation correspondence + reference splitter oracle",
+    design_ref="DESIGN.md section 5, C08 (finding F1, observation O1)",
+    level_text=("Kernel-checked theorems about a Lean model of StreamChunker::pump (Woodpile.Stream.pump: Read::chain of the "
+                "carry-over with the reader, read_n with unbounded attempts, the refill loop, the sentinel / split-position arms) "
+                "for every stream, every well-behaved read script (short reads of any size >= 1, Interrupted retries, EOF only at "
+                "the real end), every per-call block size including 0 and 1, every arena state and every clamp >= 2 (the code's "
+                "clamp is re-extracted and checked): every call returns a chunk, emitted ++ buf ++ unread = stream, offsets are "
+                "end positions, Eof only at the end and sticky, Eof reached, Data chunks non-empty and FE FD-free, no straddle, "
+                "every Sentinel is an occurrence and regrouping the chunks yields exactly the left-to-right FE FD split of the "
+                "stream. The old clamp (1) is shown to break it (F1 witness). The model is tied to /repo by running the real "
+                "pump and the compiled model on the same enumerated (all streams over {FE,FD,01,61} up to length 5/7 x block "
+                "sizes 0-4 x read sizes) and random cases and diffing chunks, offsets, request sizes and reader positions; a "
+                "shadow-state oracle with a reference splitter re-checks the property on the real chunks."),
+    level_note=("Trusted: Lean kernel + 3 standard axioms; the correspondence harness and its generators; std's Read::chain is "
+                "modelled (carry handed over by the first read). Hard I/O errors and premature zero-byte reads are exercised for "
+                "correspondence only (outside the property's quantifier, observation O1)."),
+    trusted_base=["std::io::Read::chain semantics (first reader until it returns 0, then the second)"],
+    assumptions=["64-bit usize; scripts shorter than usize::MAX answers; stream offsets below 2^64"],
+)
